@@ -927,28 +927,40 @@ where
     T: Hash + Eq,
     str: Equivalent<T>,
 {
-    let (from, replaced) = set.replace_full(rule);
-
-    let mut to = default_position;
-
-    if let Some(rule_id) = after {
-        let idx = set.get_index_of(rule_id).ok_or(InsertPushRuleError::UnknownRuleId)?;
-        to = idx + 1;
-    }
-    if let Some(rule_id) = before {
+    // Validate the parameters and compute the position before modifying the set, so that it is
+    // left unchanged if an error is returned.
+    //
+    // All the positions are indices in the set without the rule to insert.
+    let old_idx = set.get_index_of(&rule);
+    let position_of = |rule_id: &str| {
         let idx = set.get_index_of(rule_id).ok_or(InsertPushRuleError::UnknownRuleId)?;
 
-        if idx < to {
-            return Err(InsertPushRuleError::BeforeHigherThanAfter);
+        match old_idx {
+            // A rule cannot be positioned relative to itself.
+            Some(old_idx) if idx == old_idx => Err(InsertPushRuleError::UnknownRuleId),
+            Some(old_idx) if idx > old_idx => Ok(idx - 1),
+            _ => Ok(idx),
         }
+    };
+    let after_idx = after.map(position_of).transpose()?;
+    let before_idx = before.map(position_of).transpose()?;
 
-        to = idx;
-    }
+    let to = match (after_idx, before_idx) {
+        (Some(after_idx), Some(before_idx)) => {
+            if before_idx <= after_idx {
+                return Err(InsertPushRuleError::BeforeHigherThanAfter);
+            }
 
-    // Only move the item if it's new or if it was positioned.
-    if replaced.is_none() || after.is_some() || before.is_some() {
-        set.move_index(from, to);
-    }
+            before_idx
+        }
+        (None, Some(before_idx)) => before_idx,
+        (Some(after_idx), None) => after_idx + 1,
+        // Only move the rule if it's new.
+        (None, None) => old_idx.unwrap_or_else(|| default_position.min(set.len())),
+    };
+
+    let (from, _) = set.replace_full(rule);
+    set.move_index(from, to);
 
     Ok(())
 }
